@@ -681,8 +681,10 @@ impl<'a> FnTr<'a> {
                 let (sc, sty) = self.ex(&l.expr, env_t, &mut stc, None)?;
                 let p = self.pat(&l.pat, &sty, env_t)?;
                 let inner = self.if_chain_go(conj, i + 1, env_t, mk_then, else_seq)?;
+                // builder N: `none` completes `some <binding>`; a refutable inner pattern (`Ok(true)`) needs `_`
+                let binds_all = p.strip_prefix("some ").map(|r| r != "true" && r != "false" && !r.starts_with(|c: char| c.is_ascii_digit()) && r.chars().all(|c| c.is_alphanumeric() || c == '_' || c == '«' || c == '»')).unwrap_or(false);
                 let other = match &sty {
-                    Ty::Opt(_) => "none".to_string(),
+                    Ty::Opt(_) if binds_all => "none".to_string(),
                     _ => "_".to_string(),
                 };
                 Ok(Seq { stmts: stc, tail: Tail::Match(sc, vec![(p, inner), (other, else_seq.clone())]) })
@@ -2073,12 +2075,14 @@ impl<'a> FnTr<'a> {
             }
             if let (Expr::Range(r), Expr::Closure(cl)) = (recv, &m.args[0]) {
                 if let (Some(lo), Some(hi), RangeLimits::Closed(_), 1) = (&r.start, &r.end, &r.limits, cl.inputs.len()) {
-                    let (a, ta) = self.ex(lo, env, st, None)?;
-                    let ity = match &ta {
-                        Ty::Int(_) => ta.clone(),
+                    let (a0, ta0) = self.ex(lo, env, st, None)?;
+                    let (b, tb) = self.ex(hi, env, st, if matches!(ta0, Ty::Int(_)) { Some(ta0.clone()) } else { None })?;
+                    let ity = match (&ta0, &tb) {
+                        (Ty::Int(_), _) => ta0.clone(),
+                        (Ty::IntLit, Ty::Int(_)) => tb.clone(),
                         _ => return Err("range all: the bounds are not typed integers".into()),
                     };
-                    let (b, tb) = self.ex(hi, env, st, Some(ity.clone()))?;
+                    let (a, ta) = if ta0 == Ty::IntLit { (a0, ity.clone()) } else { (a0, ta0) };
                     unify(&ta, &tb)?;
                     let mut env_c = env.clone();
                     let pn = self.pat(&cl.inputs[0], &ity, &mut env_c)?;
